@@ -123,6 +123,32 @@ CLAIMED.update({
     ),
 })
 
+
+# rules added after the independently seeded changes (rounds 1 and 2) were run against the checks:
+# one sentence per property, appended to its level text
+ADDENDA = {
+    "C01": "Also: the style cache is compared as a whole (component reads only for components the forget-marker sets); drawCell returns the GetContent width on every path; a painted cell is marked clean on every way out; the believed column width is go-runewidth's.",
+    "C02": "Also: what a parser consumes is exactly what it matched (fixed read counts against an abstract interpretation of the recogniser's (state, index) pairs; countdown, prefix, decoder and delimiter idioms); a queued input chunk owns its backing array; a 'partial' answer over several candidates only accumulates.",
+    "C03": "Also: the pending-Alt flag is screen state set by the collect loop and tested-and-cleared by the rune and function-key parsers; queued input chunks own their backing array.",
+    "C04": "Also: remembered modes are stored only by the togglers (nothing reachable from Suspend/Resume/Fini stores them); on/off string fallbacks are assigned under the same conditions; the title is pushed before it is set.",
+    "C05": "Also: queued input chunks own their backing array; ChannelEvents forwards the event it holds before it can receive another; no event producer consults a queue's fill level; only the terminfo/console resize notification and PostEvent may drop (wasm callbacks included in the quick tier).",
+    "C06": "Also: engage re-establishes what disengage dismantles (resize callback feeding the queue the main loop reads, fresh stop channel given to both loops, Tty.Start); the Tty implementations do not join their signal goroutine under their own mutex; t.tty/t.ti are stored non-nil by the constructor or Init only.",
+    "C07": "Also: a closer or else ends a skip only at nesting level zero and every skipping mode counts nested openers; %c writes exactly one byte; %i increments each of the first two parameters independently; no pop discards the popped stack.",
+    "C08": "Also: every width store is RuneWidth of the stored rune, a copy, or the constant 1 under a proven printable-ASCII range; cells are never copied wholesale (clean-mark and lock do not travel); the ColorNone test works on a per-cell fresh copy of the style.",
+    "C09": "Also: TPuts removes terminated padding with exactly its delimiters and recognises every padding byte the database uses; encoder output is appended only behind the SUB test for every encoder call.",
+    "C10": "Also: memory handed from the input goroutine to the main loop is not written again by the sender.",
+    "C11": "Also: queued input chunks own their backing array; no unicode/utf8 function is applied to undecoded input; a prefix the decoder could only substitute U+FFFD for is not consumed before prefixes up to 4 bytes were tried; the charset registration table pairs names with the objects of the same name; the key matcher's partial answer accumulates.",
+    "C12": "Also: the SGR parser's per-parameter accumulators are reset together; queued input chunks own their backing array.",
+    "C13": "Also: the content-changed tests do not tell a nil combining list from an empty one; the cell lock is written only by LockCell/UnlockCell; a painted cell is marked clean on every way out of the terminfo painter.",
+    "C14": "Also: SetFg/SetBg/SetFgBg of every entry denote palette entry n for all n below its colour count; Init forces direct colour off under TCELL_TRUECOLOR=disable.",
+    "C15": "Also: TPuts cuts the string exactly at its markers, keeps text between the markers that is not a padding specification (grammar alphabet digits . * /, a number required), sleeps only with a pad character; %c emits one byte; TGoto returns what TParm computes in that call (no remembered results).",
+    "C16": "Also: FindColor scans the whole palette (no early exit); Hex answers -1, the colour's own 24 bits, or the table entry - nothing computed.",
+    "C17": "Also: the encoder's destination buffer has a constant size >= 4 in encodeRune and CanDisplay; the charset registration table pairs every name with the encoding object of the same name (one reasoned exception: GB2312 is served by GBK).",
+    "C18": "Also: the simulation decides 'not encodable' from the same observations as the terminfo screen and gives the encoder a constant destination >= 4; its resize event is never dropped; drawCell returns the GetContent width; a substituted prefix is not consumed; the prefix loop has no cap below 4.",
+    "C19": "Also: drawCell returns the GetContent width and marks painted cells clean; remembered mouse/paste modes are stored only by the togglers and re-applied by Resume; named keys are looked up under their plain DOM name whatever the modifiers.",
+    "C20": "Also: ViewPort.Resize clips the extent against the parent measured from the requested origin.",
+}
+
 # id -> reason for properties not (yet) claimed
 NOT_APPLICABLE = {
 }
@@ -138,6 +164,8 @@ def main():
         pid = p["id"]
         if pid in CLAIMED:
             tech, text, note = CLAIMED[pid]
+            if pid in ADDENDA:
+                text = text + " " + ADDENDA[pid]
             checks.append({
                 "property_id": pid,
                 "quick_cmd": "./check.sh %s quick" % pid,
@@ -169,7 +197,7 @@ def main():
         }],
         "checks": checks,
         "not_applicable": na,
-        "notes": "All checks load /repo's current working tree on every run. Violations are keyed rule+construct; /verif/known_findings.json lists triaged genuine defects (known/fixed).",
+        "notes": "All checks load /repo's current working tree on every run. Violations are keyed rule+construct; /verif/known_findings.json lists triaged genuine defects (known/fixed). The thorough tier adds further build configurations and re-runs each property's rules against source-edit mutants (checker/teeth.json) and the independently seeded changes in /verif/seeded on scratch copies; those runs never produce VIOLATION lines about /repo.",
     }
     json.dump(m, open(os.path.join(HERE, "MANIFEST.json"), "w"), indent=1)
     print("claimed:", len(checks), "not_applicable:", len(na))
